@@ -102,6 +102,27 @@ pub fn msg_opts_for(rng: &mut Rng, i: usize) -> MsgOpts {
 
 fn gen_c01(rng: &mut Rng, thorough: bool, out: &mut Cases) {
     let n = if thorough { 120_000 } else { 6_000 };
+    // a message followed by a LOT of bytes: around 2^16 and around 2^32 (op 34 allocates them zero-filled)
+    for i in 0..(if thorough { 200 } else { 40 }) {
+        let mut o = msg_opts_for(rng, i);
+        o.target_total = None;
+        o.max_blob = 20;
+        let m = gen_message(rng, &o);
+        let len = std::panic::catch_unwind(|| m.as_bytes().len()).unwrap_or(30) as u128;
+        let base: u128 = if i % 4 == 3 { 1u128 << 32 } else { 1u128 << 16 };
+        let k = rng.below(len as u64 + 1) as u128;
+        let nrest = match i % 5 {
+            0 => base - len,
+            1 => base - len + k,
+            2 => base,
+            3 => base - k,
+            _ => base + k,
+        };
+        let mut w = W::new();
+        w.msg(&m);
+        w.n(nrest);
+        out.push(34, w);
+    }
     for i in 0..n {
         let o = msg_opts_for(rng, i);
         let m = gen_message(rng, &o);
@@ -182,7 +203,59 @@ pub fn hostile_inputs(rng: &mut Rng, n: usize, out: &mut Vec<(bool, Vec<u8>)>) {
 }
 
 /// hand-made encodings in the dialect real ECUs emit and other non-canonical forms
+/// deterministic boundary encodings that random sampling reaches only now and then
+pub fn boundary_inputs(out: &mut Vec<(bool, Vec<u8>)>) {
+    for be in [false, true] {
+        let u16b = |v: u16| if be { v.to_be_bytes() } else { v.to_le_bytes() };
+        let u32b = |v: u32| if be { v.to_be_bytes() } else { v.to_le_bytes() };
+        let u64b = |v: u64| if be { v.to_be_bytes() } else { v.to_le_bytes() };
+        let wrap = |payload: &[u8], noar: u8| -> Vec<u8> {
+            let mut v = vec![0x21 | if be { 2 } else { 0 }, 0x07];
+            v.extend_from_slice(&((14 + payload.len()) as u16).to_be_bytes());
+            v.extend_from_slice(&[0x41, noar, 0x41, 0x50, 0x50, 0x00, 0x43, 0x54, 0x58, 0x00]);
+            v.extend_from_slice(payload);
+            v
+        };
+        // 32- and 64-bit floats: signalling / quiet NaNs with payloads, infinities, zeros, subnormals
+        for bits in [0x7fa0_1234u32, 0xff80_0001, 0x7fc0_0000, 0xffc0_0001, 0x7f80_0000, 0xff80_0000, 0x8000_0000, 1, 0x007f_ffff, 0x7f7f_ffff] {
+            let mut p = u32b(0x83).to_vec();
+            p.extend_from_slice(&u32b(bits));
+            out.push((false, wrap(&p, 1)));
+        }
+        for bits in [0x7ff4_0000_0000_1234u64, 0xfff0_0000_0000_0001, 0x7ff8_0000_0000_0000, 0x7ff0_0000_0000_0000, 0x8000_0000_0000_0000, 1] {
+            let mut p = u32b(0x84).to_vec();
+            p.extend_from_slice(&u64b(bits));
+            out.push((false, wrap(&p, 1)));
+        }
+        // name and unit size fields whose SUM leaves the 16-bit range, on every numeric kind
+        for ti in [0x823u32, 0x843, 0x883, 0x1823, 0x1843, 0x821, 0x845] {
+            for (a, b) in [(0xfffdu16, 3u16), (0xfffc, 3), (0x8000, 0x8000), (0xffff, 0xffff), (0xffff, 1), (1, 0xffff), (0, 0), (0, 1), (1, 0)] {
+                let mut p = u32b(ti).to_vec();
+                p.extend_from_slice(&u16b(a));
+                p.extend_from_slice(&u16b(b));
+                p.extend_from_slice(&[0x41, 0x00, 0x42, 0x00, 1, 2, 3, 4, 5, 6, 7, 8, 9, 10, 11, 12, 13, 14, 15, 16]);
+                out.push((false, wrap(&p, 1)));
+            }
+        }
+        // name size 0 / 1 on bool, string, raw with VARI; string size 0 / 1
+        for ti in [0x810u32, 0xa00, 0xc00] {
+            for (sz, nsz) in [(0u16, 0u16), (1, 0), (0, 1), (1, 1), (2, 0)] {
+                let mut p = u32b(ti).to_vec();
+                if ti != 0x810 {
+                    p.extend_from_slice(&u16b(sz));
+                }
+                p.extend_from_slice(&u16b(nsz));
+                p.extend_from_slice(&[0x00, 0x00, 0x41, 0x00, 0x01]);
+                out.push((false, wrap(&p, 1)));
+            }
+        }
+    }
+}
+
 pub fn dialect_inputs(rng: &mut Rng, n: usize, out: &mut Vec<(bool, Vec<u8>)>) {
+    if n >= 100 {
+        boundary_inputs(out);
+    }
     for _ in 0..n {
         let be = rng.bool();
         let u16b = |v: u16| if be { v.to_be_bytes() } else { v.to_le_bytes() };
@@ -320,8 +393,12 @@ pub fn gen_filter(rng: &mut Rng, m: Option<&Message>) -> DltFilterConfig {
             let n = rng.below(4) as usize;
             let mut v: Vec<String> = (0..n).map(|_| gen_id(rng)).collect();
             if let Some(p) = present {
-                match rng.below(8) {
+                match rng.below(11) {
                     0..=3 => v.push(p.clone()),
+                    // NUL-padded, over-long and shortened variants (an id list is compared as text, not as a 4-byte field)
+                    8 => v.push(format!("{}\0", p)),
+                    9 => v.push(format!("{}X", p)),
+                    10 => v.push(p.chars().take(p.chars().count().saturating_sub(1)).collect()),
                     // near misses of the message's id: trimmed, padded, case-changed, prefix
                     4 => v.push(p.trim_end().to_string()),
                     5 => v.push(format!("{} ", p)),
@@ -422,6 +499,12 @@ fn gen_c03(rng: &mut Rng, thorough: bool, out: &mut Cases) {
         let body = vec![0x41u8; 65535 + (k % 4) * 7];
         v.extend_from_slice(&body);
         push_parse(out, 21, false, &None, &v);
+    }
+    // deterministic boundary encodings (float specials, size fields whose sum leaves 16 bits, size 0/1 fields)
+    let mut bi = vec![];
+    boundary_inputs(&mut bi);
+    for (sh, bs) in bi {
+        push_parse(out, 21, sh, &None, &bs);
     }
     // non-verbose argument construction: exact payloads, every truncation, trailing bytes, boundary field sizes
     gen_c13_n(rng, if thorough { 30_000 } else { 2_000 }, out);
@@ -856,6 +939,29 @@ fn gen_c02(rng: &mut Rng, thorough: bool, out: &mut Cases) {
         w.bool(sh);
         w.b(&bs);
         out.push(60, w);
+    }
+    // junk in front of a storage-header message that is cut short: every cut of small messages (incomplete vs reject)
+    for i in 0..n / 40 {
+        let mut o = msg_opts_for(rng, i);
+        o.storage = Some(true);
+        o.target_total = None;
+        o.max_args = 2;
+        o.max_blob = 6;
+        let m = gen_message(rng, &o);
+        if let Ok(b) = std::panic::catch_unwind(|| m.as_bytes()) {
+            if b.len() > 120 {
+                continue;
+            }
+            let junk = gen_junk(rng);
+            for k in 16..b.len() {
+                let mut buf = junk.clone();
+                buf.extend_from_slice(&b[..k]);
+                let mut w = W::new();
+                w.bool(true);
+                w.b(&buf);
+                out.push(60, w);
+            }
+        }
     }
     // junk in front of storage-header messages, partial markers
     for i in 0..n / 10 {
